@@ -94,6 +94,17 @@ def render_source(sc):
     return render_def(sc) + "\ncallable_ = f\n"
 
 
+NONE_CODE = 299          # the value None, as an event keyword (a value like any other)
+
+
+def _nz(v):
+    return NONE_CODE if v is None else v
+
+
+def _kwargs(sc):
+    return {pname(n): (None if v == NONE_CODE else v) for n, v in sc["kw"]}
+
+
 def _encode(sig, received):
     out = []
     for n, k, _ in sig:
@@ -101,11 +112,11 @@ def _encode(sig, received):
         if v is _D:
             continue
         if k == 2:
-            out.append([n, ["tuple", list(v)]])
+            out.append([n, ["tuple", [_nz(x) for x in v]]])
         elif k == 4:
-            out.append([n, ["dict", [[name_no(key), val] for key, val in v.items()]]])
+            out.append([n, ["dict", [[name_no(key), _nz(val)] for key, val in v.items()]]])
         else:
-            out.append([n, ["one", v]])
+            out.append([n, ["one", _nz(v)]])
     return out
 
 
@@ -115,17 +126,31 @@ def run_machine(sc):
     from statemachine import State, StateMachine
     from statemachine.event_data import EventData
     got = []
-    ns = {"_D": _D, "State": State, "StateMachine": StateMachine, "GOT": got}
-    where = {"on": "on='f'", "cond": "cond='f'", "expr": "cond='f >= 1'", "expr2": "cond='0 < f and f == 1'"}[sc.get("where", "on")]
-    src = ("class M(StateMachine):\n    s0 = State(initial=True)\n    s1 = State()\n"
+    snap = []
+    def _snap_state(values):
+        for v in values:
+            for x in (list(v.values()) if isinstance(v, dict) else [v]):
+                if isinstance(x, EventData):
+                    return x.state
+        return None
+    ns = {"_D": _D, "State": State, "StateMachine": StateMachine, "GOT": got, "SNAP": snap, "_snap_state": _snap_state}
+    wh = sc.get("where", "on")
+    where = {"on": "on='f'", "cond": "cond='f'", "expr": "cond='f >= 1'", "expr2": "cond='0 < f and f == 1'",
+             "after": "after='f'", "enter": ""}[wh]
+    late = wh in ("after", "enter")        # the callback runs after the state was assigned
+    src = ("class M(StateMachine):\n    s0 = State(initial=True)\n"
+           + ("    s1 = State(enter='f')\n" if wh == "enter" else "    s1 = State()\n") +
            f"    go = s0.to(s1, {where})\n" + render_def(sc, extra_first="self", indent="    ").replace(
-               "        return ", "        GOT.append(") .rstrip() + ")\n        return 1\n")
+               "        return ", "        GOT.append(") .rstrip() + ")\n"
+           "        SNAP.append(_snap_state(list(locals().values())))\n        return 1\n"
+           + ("    async def before_go(self):\n        return None\n" if sc.get("async_engine") else ""))
     model = None
-    if sc.get("mshape") == "partial":
+    if sc.get("mshape") == "partial" and wh != "enter":
         # the callback is a functools.partial stored as an attribute of the model (its first parameter is
         # already bound); the declared parameters are the ones the partial leaves open
         ns["functools"] = functools
-        src = (render_def(sc, fname="g", extra_first="q").replace("    return ", "    GOT.append(").rstrip() + ")\n    return 1\n"
+        src = (render_def(sc, fname="g", extra_first="q").replace("    return ", "    GOT.append(").rstrip() + ")\n"
+               "    SNAP.append(_snap_state(list(locals().values())))\n    return 1\n"
                "class Mdl:\n    state = None\n"
                "class M(StateMachine):\n    s0 = State(initial=True)\n    s1 = State()\n"
                f"    go = s0.to(s1, {where})\n"
@@ -134,8 +159,8 @@ def run_machine(sc):
     fc = SignatureAdapter.from_callable
     getattr(fc, "__func__", fc).clear_cache()
     exec(compile(src, "<c07m>", "exec"), ns)  # noqa: S102
-    sm = ns["M"](ns["MODEL"]) if sc.get("mshape") == "partial" else ns["M"]()
-    kwargs = {pname(n): v for n, v in sc["kw"]}
+    sm = ns["M"](ns["MODEL"]) if (sc.get("mshape") == "partial" and wh != "enter") else ns["M"]()
+    kwargs = _kwargs(sc)
     try:
         sm.go(*sc["args"], **kwargs)      # (send() has its own parameter named `event`)
     except TypeError:
@@ -145,15 +170,18 @@ def run_machine(sc):
     r = got[0]
 
     def canon(name_no, v):
-        if isinstance(v, int) or v is _D:
+        if isinstance(v, int) or v is _D or v is None:
             return v
         i = name_no - 50
-        ok = [lambda x: isinstance(x, EventData) and x.transition.source.id == "s0",
+        now = "s1" if late else "s0"
+        # (event_data.state as it was when the callback ran: the state the machine was in at that moment)
+        ok = [lambda x: isinstance(x, EventData) and x.transition.source.id == "s0" and snap[0].id == now
+              and x.source.id == "s0" and x.target.id == "s1",
               lambda x: x.current_state_value == sm.current_state_value and type(x).__name__ in ("M", "weakproxy", "weakcallableproxy"),
               lambda x: str(x) == "go",
               lambda x: x is sm.model,
               lambda x: x.source.id == "s0" and x.target.id == "s1",
-              lambda x: x.id == "s0",
+              lambda x: x.id == now,
               lambda x: x.id == "s0",
               lambda x: x.id == "s1"]
         if 0 <= i < 8:
@@ -193,7 +221,7 @@ def run_impl(sc):
     f = ns["callable_"]
     adapter = SignatureAdapter.from_callable(f)
     args = list(sc["args"])
-    kwargs = {pname(n): v for n, v in sc["kw"]}
+    kwargs = _kwargs(sc)
     try:
         ba = adapter.bind_expected(*args, **kwargs)
     except TypeError:
@@ -303,7 +331,7 @@ def random_case(rng):
             d = rng.random() < 0.5
         sig.append([i + 1, k, d])
     names = [p[0] for p in sig if p[1] in (0, 1, 3)] + [20, 21, 50 + rng.randrange(8)]
-    kw = [[x, 200 + x] for x in names if rng.random() < 0.4]
+    kw = [[x, (NONE_CODE if rng.random() < 0.2 else 200 + x)] for x in names if rng.random() < 0.4]
     rng.shuffle(kw)
     args = [100 + i for i in range(rng.randint(0, len(sig) + 2))]
     return {"sig": sig, "args": args, "kw": kw,
@@ -364,8 +392,9 @@ def machine_case(rng):
            if rng.random() < 0.35]
     rng.shuffle(kwn)
     return {"sig": sig, "args": [100 + i for i in range(rng.randint(0, 3))],
-            "kw": [[x, 200 + x] for x in kwn], "shape": "machine",
-            "where": rng.choice(["on", "on", "cond", "expr", "expr2"]),
+            "kw": [[x, (NONE_CODE if (x < 50 and rng.random() < 0.2) else 200 + x)] for x in kwn], "shape": "machine",
+            "where": rng.choice(["on", "on", "cond", "expr", "expr2", "after", "enter"]),
+            "async_engine": rng.random() < 0.4,
             "mshape": "partial" if rng.random() < 0.25 else "method"}
 
 
